@@ -280,6 +280,7 @@ func generate() {
 		}
 		run.Extra["named_pairs"] = npairs
 	}
+	accountHistories(thorough, bbsLayer)
 	// ---- random words ------------------------------------------------------------------------------
 	nrand := 1500
 	if thorough {
@@ -349,7 +350,11 @@ func generate() {
 		"reset now", "consts x", "frobnicate", "xread ReadPost 2 1 17 0 2 0 0 0", "xread ReadPost 1 2 17 0 2 0 0 0", "xread ReadPost 2 3 17 0 2 0 0",
 		"xread LoadHotBoards 2 3 17 0 2 0 0 0", "xread ReadPost 0 3 17 0 2 0 0 0", "xreadb ReadPost 2 1 17 0 2 0 0 0", "xreadc ReadPost 2 3 17 0 2 0 0 0",
 		"nlist LoadBoardDetail 2 17 0 2 0 0 6 61", "nlist LoadBoardDetail 2 17 0 2 0 0 zz 61", "nlist ReadPost 2 17 0 2 0 0 61 61",
-		"nlist LoadBoardDetail 2 17 0 2 0 0 6161616161616161616161616161 61", "nlist LoadBoardDetail 2 17 0 2 0 0 61", "read ReadPost 2 17 0 - 0 0 0", "read ReadPost 2 +17 0 2 0 0 0",
+		"nlist LoadBoardDetail 2 17 0 2 0 0 6161616161616161616161616161 61", "nlist LoadBoardDetail 2 17 0 2 0 0 61",
+		"users", "users 1:6162 1:6364", "users 1:6162 2:4142", "users 0:6162", "users 1:61", "users 1:3161", "users 1:61622e", "users 1:6162:63", "users 51:6162",
+		"sread ReadPost 6162 17 0 2", "mread ReadPost 2 17 0 2 0", "resetbm 2 0 0 6162", "users 2:726561646572", "resetbm 3 0 0 6162", "resetbm 2 0 0 zz",
+		"mread ReadPost 2 17 0 2 0", "resetbm 2 48 0 726561646572", "mread ReadPost 2 17 0 2 0", "mread ReadPost 2 17 0 9 0", "mread ReadPost 4 17 0 2 0",
+		"read ReadPost 2 17 0 2 0 0 0", "mread ReadPost 2 17 0 2 0", "sread ReadPost 726561646572 17 0 2", "sread ReadPost 726561646572 17 0 3", "slist ReadPost 726561646572 17 0 2", "read ReadPost 2 17 0 - 0 0 0", "read ReadPost 2 +17 0 2 0 0 0",
 	}
 	for _, m := range malformed {
 		emit(m)
@@ -378,4 +383,191 @@ func generate() {
 		"moderator-cache x friend-file, each row materialised in the shared board cache / BM cache / visable file and driven through all 6 read entry points and all listing/summary functions, " +
 		"read-first and (hidden boards) listing-first; + the class listing on a group/symbolic board; + non-account uids; + random 32-bit level/attribute words; + invalid board ids and a malformed op stream. " +
 		"non-trivial = every call op"
+}
+
+// accountHistories: (1) the caller's id in every spelling the case-insensitive lookup accepts, for the built-in accounts and
+// an ordinary one, with stored permission bits that differ from the ones the account acts with; (2) boards created /
+// reset one after the other with moderator lists of different lengths, then every account at every board.
+func accountHistories(thorough, bbsLayer bool) {
+	P := func(p ptttype.PERM) uint32 { return uint32(p) }
+	A := func(a ptttype.BrdAttr) uint32 { return uint32(a) }
+	usersLine := func(tbl map[int32]string) string {
+		var parts []string
+		for uid := int32(1); uid <= int32(ptttype.MAX_USERS); uid++ {
+			if id, ok := tbl[uid]; ok {
+				parts = append(parts, fmt.Sprintf("%d:%s", uid, hx.Hex([]byte(id))))
+			}
+		}
+		return "users " + strings.Join(parts, " ")
+	}
+	// ---- spellings ---------------------------------------------------------------------------------------------
+	variants := func(id string) []string {
+		lower, upper := strings.ToLower(id), strings.ToUpper(id)
+		mixed := []byte(lower)
+		for i := range mixed {
+			if i%2 == 0 && mixed[i] >= 'a' && mixed[i] <= 'z' {
+				mixed[i] -= 32
+			}
+		}
+		first := []byte(lower)
+		if first[0] >= 'a' && first[0] <= 'z' {
+			first[0] -= 32
+		}
+		out := []string{id}
+		for _, v := range []string{lower, upper, string(mixed), string(first)} {
+			dup := false
+			for _, o := range out {
+				dup = dup || o == v
+			}
+			if !dup {
+				out = append(out, v)
+			}
+		}
+		return out
+	}
+	storedLevels := []uint32{P(ptttype.PERM_DEFAULT) | P(ptttype.PERM_LOGINOK) | bitHas, 0, P(ptttype.PERM_BASIC) | P(ptttype.PERM_LOGINOK) | P(ptttype.PERM_BM) | P(ptttype.PERM_SYSSUBOP)}
+	type brd struct{ attr, level uint32 }
+	boards := []brd{{0, 0}, {A(ptttype.BRD_HIDE) | A(ptttype.BRD_POSTMASK), 0}, {0, bitHas}, {0, bitLacks}, {A(ptttype.BRD_OVER18), 0}, {A(ptttype.BRD_HIDE), 0}}
+	slists := []string{"LoadBoardDetail", "LoadBoardSummary", "LoadGeneralBoards", "LoadBoardsByBids"}
+	spellOps := func(sp []byte, stored uint32, k int) {
+		if thorough {
+			for _, e := range readEntries {
+				emit(fmt.Sprintf("sread %s %s %d 0 %d", e, hx.Hex(sp), stored, bidTarget))
+			}
+			for _, f := range slists {
+				emit(fmt.Sprintf("slist %s %s %d 0 %d", f, hx.Hex(sp), stored, bidTarget))
+			}
+			return
+		}
+		for j := 0; j < 2; j++ {
+			emit(fmt.Sprintf("sread %s %s %d 0 %d", readEntries[(k+3*j)%len(readEntries)], hx.Hex(sp), stored, bidTarget))
+		}
+		emit(fmt.Sprintf("slist %s %s %d 0 %d", slists[k%len(slists)], hx.Hex(sp), stored, bidTarget))
+	}
+	k := 0
+	for _, acct := range []string{"SYSOP", "guest", readerName} {
+		for _, b := range boards {
+			emit("reset")
+			emit(usersLine(defaultTable))
+			emit(fmt.Sprintf("setb %d %d %d", bidTarget, b.attr, b.level))
+			for _, stored := range storedLevels {
+				for _, sp := range variants(acct) {
+					spellOps([]byte(sp), stored, k)
+					k++
+				}
+			}
+		}
+	}
+	// ids nobody has, ids the boundary must refuse, over-long and NUL-carrying spellings
+	emit("reset")
+	emit(usersLine(defaultTable))
+	emit(fmt.Sprintf("setb %d 0 0", bidTarget))
+	for _, sp := range []string{"nobody", "s", "SYSOP2", "SYSO", "guest.", "9uest", "sysopsysopsysop", "SYSOP\x00x", "gu\x00est", "reader12345678", "", "guests", "Sysop "} {
+		spellOps([]byte(sp), storedLevels[0], k)
+		k++
+	}
+	// another table: the built-in names stored in other letter case, and look-alikes
+	alt := map[int32]string{1: "Sysop", 2: "GUEST", 3: "sysop2", 7: "guest1", 9: "Zed"}
+	for _, b := range boards[:3] {
+		emit("reset")
+		emit(usersLine(alt))
+		emit(fmt.Sprintf("setb %d %d %d", bidTarget, b.attr, b.level))
+		for _, sp := range []string{"SYSOP", "sysop", "Sysop", "guest", "GUEST", "Guest", "sysop2", "SYSOP2", "zed"} {
+			spellOps([]byte(sp), storedLevels[0], k)
+			k++
+		}
+	}
+	run.Extra["spelling_cases"] = k
+
+	// ---- moderator lists, one board after the other (ptt layer) ---------------------------------------------------------
+	if bbsLayer {
+		return
+	}
+	plain := P(ptttype.PERM_BASIC) | P(ptttype.PERM_LOGINOK) | bitHas
+	hidden := A(ptttype.BRD_HIDE) | A(ptttype.BRD_POSTMASK)
+	names := []string{"buddy", "other", "fill40", "fill41", readerName, "SYSOP"}
+	list := func(n, rot int) string {
+		var ns []string
+		for i := 0; i < n; i++ {
+			ns = append(ns, names[(rot+i)%len(names)])
+		}
+		return strings.Join(ns, "/")
+	}
+	allUsers := func(bid ptttype.Bid, k int) {
+		for uid := int32(1); uid <= int32(ptttype.MAX_USERS); uid++ {
+			if _, ok := defaultTable[uid]; !ok || uid == 1 {
+				continue
+			}
+			if thorough {
+				for _, e := range readEntries {
+					emit(fmt.Sprintf("mread %s %d %d 0 %d 0", e, bid, plain, uid))
+				}
+				emit(fmt.Sprintf("mlist LoadBoardDetail %d %d 0 %d 0", bid, plain, uid))
+				emit(fmt.Sprintf("mlist LoadBoardsByBids %d %d 0 %d 0", bid, plain, uid))
+			} else {
+				emit(fmt.Sprintf("mread %s %d %d 0 %d 0", readEntries[(k+int(uid))%len(readEntries)], bid, plain, uid))
+			}
+		}
+	}
+	nh := 0
+	for n1 := 0; n1 <= 5; n1++ {
+		for n2 := 0; n2 <= 5; n2++ {
+			if !thorough && n2 > n1 && (n1+n2)%2 == 1 {
+				continue // quick: every shrinking pair, half of the growing ones
+			}
+			// board A with n1 moderators, then board B with n2; then A again with n2 (same board, shorter list)
+			emit("reset")
+			emit(usersLine(defaultTable))
+			emit(fmt.Sprintf("resetbm %d %d 0 %s", bidGroup, hidden|A(ptttype.BRD_GROUPBOARD), hx.Hex([]byte(list(n1, nh)))))
+			emit(fmt.Sprintf("resetbm %d %d 0 %s", bidTarget, hidden, hx.Hex([]byte(list(n2, nh+n1)))))
+			allUsers(bidTarget, nh)
+			allUsers(bidGroup, nh)
+			emit(fmt.Sprintf("resetbm %d %d %d %s", bidGroup, A(ptttype.BRD_GROUPBOARD), bitLacks, hx.Hex([]byte(list(n2, nh+2)))))
+			allUsers(bidGroup, nh+1)
+			nh++
+		}
+	}
+	// odd moderator strings: unknown names, other letter case, empty names, over-long names, a name cut by the 39-byte field
+	odd := []string{"BUDDY/Other", "nobody/buddy", "/buddy//other/", "buddy/other/fill40/fill41/reader", "nobody1/nobody2/nobody3/nobody4/reader",
+		"buddyyyyyyyyyyyyy/other", "guest/SYSOP", "", "buddy\x00/other", strings.Repeat("q", 33) + "/other"}
+	for i, bm := range odd {
+		emit("reset")
+		emit(usersLine(defaultTable))
+		emit(fmt.Sprintf("resetbm %d %d 0 %s", bidGroup, hidden|A(ptttype.BRD_GROUPBOARD), hx.Hex([]byte("fill40/fill41/other/buddy"))))
+		emit(fmt.Sprintf("resetbm %d %d 0 %s", bidTarget, hidden, hx.Hex([]byte(bm))))
+		allUsers(bidTarget, i)
+		nh++
+	}
+	// random histories
+	nr := 40
+	if thorough {
+		nr = 1500
+	}
+	for i := 0; i < nr; i++ {
+		emit("reset")
+		emit(usersLine(defaultTable))
+		live := map[ptttype.Bid]bool{}
+		for step := 0; step < 3+run.R.Intn(5); step++ {
+			bid := bidTarget
+			if run.R.Bool() {
+				bid = bidGroup
+			}
+			if !live[bid] || run.R.Intn(3) == 0 {
+				attr := hidden
+				if run.R.Intn(4) == 0 {
+					attr = 0
+				}
+				if bid == bidGroup {
+					attr |= A(ptttype.BRD_GROUPBOARD)
+				}
+				emit(fmt.Sprintf("resetbm %d %d %d %s", bid, attr, []uint32{0, bitLacks}[run.R.Intn(2)], hx.Hex([]byte(list(run.R.Intn(6), run.R.Intn(6))))))
+				live[bid] = true
+				continue
+			}
+			uid := []int32{2, 3, 4, 5, 40, 41}[run.R.Intn(6)]
+			emit(fmt.Sprintf("mread %s %d %d %d %d %d", readEntries[run.R.Intn(len(readEntries))], bid, plain, run.R.Intn(2), uid, run.R.Intn(2)))
+		}
+		nh++
+	}
+	run.Extra["moderator_histories"] = nh
 }
